@@ -70,12 +70,19 @@ Print Assumptions C14_sends_in_bounds.
    connections": a message of q leaves every other connection and its bitfield alone; another peer is dropped only
    in the step in which the torrent completes, and only if that peer is complete as well (dispatcher.go complete()) *)
 Theorem C14_other_conns_unaffected : forall t s q m a q' b,
-  wf_torrent t = true -> Proof.C14.Inv t s -> NoDup (map fst (d_peers s)) ->
+  wf_torrent t = true -> inv t s = true -> uniq s = true ->
   step gfixed t s q m = Some a -> q' <> q -> find_peer (d_peers s) q' = Some b ->
   find_peer (d_peers (a_st a)) q' = Some b \/
   (find_peer (d_peers (a_st a)) q' = None /\ b_all b = true /\ all_have s = false /\ all_have (a_st a) = true).
-Proof. exact Proof.C14_frame.others_unaffected. Qed.
+Proof. exact Proof.C14_frame.others_unaffected_b. Qed.
 Print Assumptions C14_other_conns_unaffected.
+
+(* [uniq] (one entry per peer id, as in the Go map) holds in every reachable state *)
+Theorem C14_uniq_preserved : forall t evs s s' es,
+  wf_torrent t = true -> inv t s = true -> uniq s = true -> forallb wf_event evs = true ->
+  run_events gfixed t s evs = Some (s', es) -> uniq s' = true.
+Proof. exact Proof.C14_frame.uniq_preserved. Qed.
+Print Assumptions C14_uniq_preserved.
 
 Theorem C14_handshake_others_unaffected : forall g t s q h q',
   q' <> q ->
@@ -95,9 +102,12 @@ Print Assumptions C14_hangup_others_unaffected.
 (* ---- "corrupt": a piece becomes complete only through a payload for exactly that piece — index in range,
    offset 0, the piece's length, bytes with the piece sum — and nothing else in the piece table changes *)
 Theorem C14_pieces_only_by_valid_payload : forall t s q m a,
-  wf_torrent t = true -> Proof.C14.Inv t s -> step gfixed t s q m = Some a ->
-  d_have (a_st a) = d_have s \/ Proof.C14_frame.valid_write t m (d_have s) (d_have (a_st a)).
-Proof. exact Proof.C14_frame.have_only_by_valid_payload. Qed.
+  wf_torrent t = true -> inv t s = true -> step gfixed t s q m = Some a ->
+  d_have (a_st a) = d_have s \/
+  (exists i off len, m_ty m = 2 /\ m_pay m = Some (i, off, len) /\ 0 <= i < t_n t /\ off = 0 /\ len = plen t i /\
+                     m_sumok m = true /\ t_kind t = Agent /\ zget (d_have s) i false = false /\
+                     d_have (a_st a) = zset (d_have s) i true).
+Proof. exact Proof.C14_frame.have_only_by_valid_payload_b. Qed.
 Print Assumptions C14_pieces_only_by_valid_payload.
 
 (* ---- the code before the fixes: each guard removed on its own breaks the property (witnesses = driver seeds) *)
@@ -153,8 +163,8 @@ Print Assumptions C14_bitfield_size_refuted.
 Example C14_nonvacuous_state :
   let t := mkt Agent 4 8 29 in
   let s := C14_refute.with_peer t [true; false; false; false] in
-  wf_torrent t = true /\ inv t s = true /\ d_peers s <> [] /\
-  forallb wf_event [EvHs 2 (C14_refute.hs (Some (4, [15], 8)) []);
+  wf_torrent t = true /\ inv t s = true /\ uniq s = true /\ d_peers s <> [] /\
+  forallb wf_event [EvHs 2 (C14_refute.hs (Some (4, [0], 8)) []);
                     EvMsg 1 (C14_refute.msg 3 None None (Some 2) None);
                     EvMsg 1 (mkm 20 true 2 None (Some (2, 0, 8)) None None true true);
                     EvMsg 2 (C14_refute.msg 1 (Some (2, 0, 8)) None None None);
@@ -166,7 +176,7 @@ Example C14_nonvacuous_history :
   let t := mkt Agent 4 8 29 in
   let s := C14_refute.with_peer t [true; false; false; false] in
   exists s' es,
-    run_events gfixed t s [EvHs 2 (C14_refute.hs (Some (4, [15], 8)) []);
+    run_events gfixed t s [EvHs 2 (C14_refute.hs (Some (4, [0], 8)) []);
                            EvMsg 1 (C14_refute.msg 3 None None (Some 2) None);
                            EvMsg 1 (mkm 20 true 2 None (Some (2, 0, 8)) None None true true);
                            EvMsg 2 (C14_refute.msg 1 (Some (2, 0, 8)) None None None);
